@@ -155,9 +155,19 @@ def seed_dag_order(top, rng):
   # hashed by address - present them in a name order as well
   tl = getattr(top._dag, "top_level_callee_constraints", None)
   if tl:
+    # methods / guards are named after the method port that holds them (two guard wrappers have the same
+    # __qualname__: their names alone would leave their relative order to the input order)
+    from pymtl3.dsl.Connectable import MethodPort
+    port_of = {}
+    for mp in top.get_all_object_filter(lambda x: isinstance(x, MethodPort)):
+      m = getattr(mp, "method", None)
+      if m is not None:
+        port_of.setdefault(id(m), repr(mp))
+
     def mkey(f):
       owner = getattr(f, "__self__", None)
-      return (repr(key(f)) if owner is None else repr(owner), getattr(f, "__name__", ""), getattr(f, "__qualname__", ""))
+      return (port_of.get(id(f), ""), repr(key(f)) if owner is None else repr(owner), getattr(f, "__name__", ""),
+              getattr(f, "__qualname__", ""))
     pairs = sorted(tl, key=lambda e: (mkey(e[0]), mkey(e[1])))
     rng.shuffle(pairs)
     top._dag.top_level_callee_constraints = OrderedSet(pairs)
